@@ -21,6 +21,11 @@ META = {
         "design_ref": "§5 C16, §6", "note": TB + "modelled not verified: std's Vec/Box discipline for the other alloc-feature operations (checked by the recorder's oracle only).",
         "technique": "Lean 4 case analysis over allocator-event traces on regenerated guards + recording-allocator / fault-injection correspondence",
     },
+    "C13": {
+        "text": "arrayOps_eq_sliceOps: the five impl bodies of src/impls.rs (PartialEq, PartialOrd, Ord, Hash, Debug), regenerated into Lean as terms over the slice operations and over whether the operands are the same object, are exactly the slice's operations on the whole slice - for every element type, every pair, every formatter option set (eq_agrees, partial_cmp_agrees, cmp_agrees, hash_agrees with the length prefix, debug_agrees); nested_agrees at any nesting depth; pcmp_lexicographic / pcmp_incomparable_head / eq_irreflexive_elem spell out the slice semantics incl. NaN; hash_respects_eq (by induction); hashmap_lookup_by_slice, btree_lookup_by_slice, hashmap_finds_stored: a map keyed by arrays answers a &[T] query exactly as a map keyed by the slices (uses the regenerated Borrow body). Correspondence: the real operators, a recording Hasher, format!() under 15 option sets and real HashMap/BTreeMap lookups, each also judged against the real slice.",
+        "design_ref": "§5 C13", "note": TB + "modelled not verified: core's slice impls and element formatting (validated against the real slice on every run).",
+        "technique": "Lean 4 equational proofs over regenerated impl bodies (terms over slice operations) + induction for derived laws + operator/hasher/format correspondence",
+    },
     "C17": {
         "text": "serialize_shape (a tuple of declared length N with exactly the N elements in order, no extra framing); ok_iff / no_partial: visit_seq returns Ok exactly when the source delivers N elements and then no surplus (an up-front hint != N rejects before any read; short, long and failing sources are errors) and an Ok array is always the N delivered elements; roundtrip; read_ledger: on every path each element read so far is either in the returned array or dropped exactly once, nothing uninitialised is dropped (by the fill-loop ledger of C04/C07 instantiated with the scripted source). Guards (hint comparison, position == N, probe condition, finish-after-probe order) are regenerated from src/impl_serde.rs. Correspondence: scripted SeqAccess sources with event order, plus real serde_json, serde_json::Value and bincode inputs of every length around N with malformed elements.",
         "design_ref": "§5 C17", "note": TB + "modelled not verified: serde data-format crates; SeqAccess contract.",
